@@ -1268,15 +1268,18 @@ def add_invariant_checks(cls: ClassT) -> None:
             init_func = value
             continue
 
-        if (
-            name != "__setattr__"
-            and InvariantCheckEvent.CALL not in last_invariant.check_on
+        # The invariants of the class include the ones inherited from the bases, so we need
+        # to consider all of them and not only the last one (e.g., when the meta-class decorates
+        # the functions of a sub-class whose bases define both call and set-attribute invariants).
+        if name != "__setattr__" and not any(
+            InvariantCheckEvent.CALL in an_invariant.check_on
+            for an_invariant in cls.__invariants__  # type: ignore
         ):
             continue
 
-        if (
-            name == "__setattr__"
-            and InvariantCheckEvent.SETATTR not in last_invariant.check_on
+        if name == "__setattr__" and not any(
+            InvariantCheckEvent.SETATTR in an_invariant.check_on
+            for an_invariant in cls.__invariants__  # type: ignore
         ):
             continue
 
